@@ -82,7 +82,7 @@ func genFreeze() *rapid.Generator[Freeze] {
 			Frozen: rapid.SampledFrom([]string{"sync", "sync", "sync", "pushonly", "detach"}).Draw(t, "frozen"),
 			FEdits: rapid.SliceOfN(edit, 0, 2).Draw(t, "fedits"),
 			Park:   rapid.IntRange(0, len(freezeParkNames)-1).Draw(t, "park"),
-			Nth:    rapid.IntRange(1, 2).Draw(t, "nth"),
+			Nth:    rapid.SampledFrom([]int{1, 1, 1, 2}).Draw(t, "nth"),
 			World:  rapid.SliceOfN(step(2), 1, kit.Pick(8, 12)).Draw(t, "world"),
 			Admin:  max(0, rapid.IntRange(-2, 2).Draw(t, "admin")),
 			Post:   rapid.SliceOfN(step(3), 0, kit.Pick(6, 10)).Draw(t, "post"),
